@@ -12,8 +12,10 @@ pub fn generate(family: &str, seed: u64, n: usize, tier: &str, emit: &mut dyn Fn
         "vmap" => containers::generate_vmap(seed, n, tier, emit),
         "word" => value::generate_word(seed, n, tier, emit),
         "vm" => vm::generate(seed, n, tier, emit),
+        "vm2" => vm::generate2(seed, n, tier, emit),
         "json" => json::generate(seed, n, tier, emit),
         "merge" => types::generate_merge(seed, n, tier, emit),
+        "unify" => types::generate_unify(seed, n, tier, emit),
         "fold" => value::generate_fold(seed, n, tier, emit),
         "size" => value::generate_size(seed, n, tier, emit),
         _ => panic!("unknown family {family}"),
@@ -27,8 +29,10 @@ pub fn eval(family: &str, payload: &str) -> String {
         "vmap" => containers::eval_vmap(payload),
         "word" => value::eval_word(payload),
         "vm" => vm::eval(payload),
+        "vm2" => vm::eval2(payload),
         "json" => json::eval(payload),
         "merge" => types::eval_merge(payload),
+        "unify" => types::eval_unify(payload),
         "fold" => value::eval_fold(payload),
         "size" => value::eval_size(payload),
         _ => format!("err unknown-family-{family}"),
